@@ -44,14 +44,16 @@ def bounds(tier):
             argmax_near_alphabet=["nan", 0, 1e-12, -1e-12, 1, 1.0000001, 0.9999999, -1, -1.0000001], argmax_near_maxlen=3,
             argmax2d_shapes=[[2, 2], [3, 2]], argmax2d_alphabet=["nan", 0, 1],
             batch_max_alphabet=["nan", -1, 0, 0.5, 1], batch_maxlen=4,
-            batch_prop_alphabet=["nan", 0, 1, 2], batch2d_shapes=[[2, 2]], real_seeds=4,
+            batch_prop_alphabet=["nan", 0, 1, 2], batch_prop_tiny_alphabet=["nan", 0, 1e-6, 5], batch_prop_tiny_maxlen=4,
+            batch2d_shapes=[[2, 2]], real_seeds=4,
         )
     return dict(
         argmax_alphabet=["nan", "-inf", -1, 0, 1, "inf"], argmax_maxlen=5,
         argmax_near_alphabet=["nan", 0, 1e-12, -1e-12, 1, 1.0000001, 0.9999999, -1, -1.0000001], argmax_near_maxlen=4,
         argmax2d_shapes=[[2, 2], [3, 2], [2, 3]], argmax2d_alphabet=["nan", 0, 1],
         batch_max_alphabet=["nan", -1, 0, 0.5, 1], batch_maxlen=5,
-        batch_prop_alphabet=["nan", 0, 1, 2], batch2d_shapes=[[2, 2], [2, 3]], real_seeds=8,
+        batch_prop_alphabet=["nan", 0, 1, 2], batch_prop_tiny_alphabet=["nan", 0, 1e-6, 1e-300, 5], batch_prop_tiny_maxlen=5,
+        batch2d_shapes=[[2, 2], [2, 3]], real_seeds=8,
     )
 
 
@@ -88,6 +90,14 @@ def _cases(tier):
     for n in range(1, b["batch_maxlen"] + 1):
         for vals in itertools.product(P, repeat=n):
             for bs in range(1, n + 2):
+                out.append(("simple_batch:proportional", [n], list(vals), bs))
+    # weights of very different magnitude: a light but positive weight must stay selectable, a zero weight / NaN must not become so
+    PT = [_val(v) for v in b["batch_prop_tiny_alphabet"]]
+    for n in range(2, b["batch_prop_tiny_maxlen"] + 1):
+        for vals in itertools.product(PT, repeat=n):
+            if not any(v == v and 0 < v < 1e-3 for v in vals):
+                continue  # covered by the plain alphabet
+            for bs in range(1, n + 1):
                 out.append(("simple_batch:proportional", [n], list(vals), bs))
     for shape in b["batch2d_shapes"]:
         for vals in itertools.product(A2, repeat=shape[0] * shape[1]):
